@@ -76,8 +76,12 @@ impl<const TOTAL_NUM_BITS: u32, const NUM_INDEX_BITS: u32>
     }
 
     /// `pa.fraction()` is the fractional part of the accumulator as a floating point number in `[0.0, 1.0]`
+    ///
+    /// This is the position between two consecutive index values, made from the bits below the index bits
     pub fn fraction(&self) -> f32 {
-        ((self.accumulator & self.rollover_mask) as f32) / (self.rollover_mask as f32)
+        let num_fraction_bits = TOTAL_NUM_BITS - NUM_INDEX_BITS;
+        let fraction_mask = (1 << num_fraction_bits) - 1;
+        ((self.accumulator & fraction_mask) as f32) / ((1 << num_fraction_bits) as f32)
     }
 
     /// `pa.rolled_over()` is true iff the phase accumulator has rolled over into a new cycle since checking
